@@ -29,12 +29,30 @@ def describe():
                  "decides that no admissible occurrence (error-free: all classes; within tolerance: the classes named in the statement) exists among all interval "
                  "quadruples the placement rule admits; on a match path it decides the leftmost/rightmost/exact-removal clauses. non-trivial = jobs where both a "
                  "None outcome and a match outcome are reachable")
-    d["outside_bounds"] = d["outside_bounds"] + ["occurrences that need the k-mer prefilter to agree (C07)"]
+    d["outside_bounds"] = d["outside_bounds"] + ["in the main jobs the k-mer prefilter is stubbed to 'present'; the 'with-prefilter' jobs run match_to with the real prefilter (adapter over ACGT, no wildcards, shapes (3,2),(4,3),(3,4)); C07 decides the prefilter in general"]
+    d["stubs"] = ["SingleAdapter._make_kmer_finder -> MockKmerFinder in the main jobs only"]
     return d
 
 
+# jobs in which the k-mer prefilter is NOT stubbed (match_to exactly as users run it): reads shorter than, equal to
+# and longer than the adapter; no wildcards; minimum overlap enumerated (the k-mer tables need it concrete)
+COMPOSED_SHAPES_QUICK = [(3, 2), (4, 3), (3, 4)]
+COMPOSED_SHAPES_THOROUGH = [(3, 2), (4, 3), (3, 4), (4, 5), (5, 4)]
+
+
 def jobs(tier, seed):
-    return C01.jobs(tier, seed)
+    out = C01.jobs(tier, seed)
+    for (m, n) in (COMPOSED_SHAPES_QUICK if tier == "quick" else COMPOSED_SHAPES_THOROUGH):
+        rates = C01.pick_rates(m, (0.0, 0.34) if tier == "quick" else None)
+        for kind in AC.BASIC_KINDS:
+            for rate in rates:
+                for indels in (True, False):
+                    for mo in sorted({1, m}):
+                        if kind in ("prefix", "suffix") and mo != m:
+                            continue
+                        cfg = dict(rate=rate, adapter_wildcards=False, read_wildcards=False, indels=indels, min_overlap=mo)
+                        out.append({"name": "with-prefilter/%s/m=%d/n=%d/%s,o=%d" % (kind, m, n, AC.cfg_name(cfg), mo), "kind": kind, "m": m, "n": n, "cfg": cfg, "prefilter": True})
+    return out
 
 
 def occurrence_terms(ref, kind, m, n, mo, rate, indels):
@@ -52,11 +70,20 @@ def occurrence_terms(ref, kind, m, n, mo, rate, indels):
     return exact, tolerant
 
 
-def path(J, ctx, kind, m, n, cfg):
-    it, adapter, read, c, mo = C01.setup_path(ctx, kind, m, n, cfg)
+def path(J, ctx, kind, m, n, cfg, prefilter=False):
+    if prefilter:
+        it, adapter, read, c, mo = C01.setup_path(ctx, kind, m, n, cfg, adapter_alphabet="ACGT", read_alphabet="ACGTNacgt!")
+    else:
+        it, adapter, read, c, mo = C01.setup_path(ctx, kind, m, n, cfg)
     mk = C01.make_cex(kind, cfg, adapter, read, mo)
+    if prefilter:
+        _mk = mk
+        def mk(model):  # noqa
+            d = _mk(model)
+            d["prefilter"] = True
+            return d
     try:
-        ad = AC.build_adapter(it, kind, adapter, c, mock_prefilter=True)
+        ad = AC.build_adapter(it, kind, adapter, c, mock_prefilter=not prefilter)
     except ValueError:
         return
     ref = AC.Ref(adapter.chars, read.chars, cfg["adapter_wildcards"], cfg["read_wildcards"], cfg["indels"])
@@ -114,7 +141,7 @@ def path(J, ctx, kind, m, n, cfg):
 
 def run_job(job):
     J = Job(job)
-    r = run_paths(J, lambda ctx: path(J, ctx, job["kind"], job["m"], job["n"], job["cfg"]), max_paths=200)
+    r = run_paths(J, lambda ctx: path(J, ctx, job["kind"], job["m"], job["n"], job["cfg"], job.get("prefilter", False)), max_paths=400)
     both = J.extra.get("paths_none", 0) > 0 and J.extra.get("paths_match", 0) > 0
     r["nontrivial"] = 1 if both else 0
     r["vacuity"] = bool(J.extra.get("paths_none", 0) or J.extra.get("paths_match", 0))
@@ -155,7 +182,7 @@ def replay(cex):
     kind, cfg, ad, rd = cex["kind"], cex["cfg"], cex["adapter"], cex["read"]
     m, n = len(ad), len(rd)
     try:
-        mt = AC.real_match(kind, cfg, ad, rd, prefilter=False)
+        mt = AC.real_match(kind, cfg, ad, rd, prefilter=bool(cex.get("prefilter")))
     except Exception as e:  # noqa
         return True, "%s(%r).match_to(%r) raises %r" % (AC.CLASSES[kind], ad, rd, e)
     exact, tol, copies = reference_occurrences(kind, cfg, ad, rd)
